@@ -486,12 +486,11 @@ func runC06(c *Ctx) {
 				}
 				switch k := lr.Intn(20); {
 				case k < 10:
-					ms := []string{ref.Pick(lr, methods)}
-					if lr.Chance(1, 3) { // a list: the call must be atomic (all methods installed or none)
-						ms = append(ms, ref.Pick(lr, methods))
-						if lr.Chance(1, 3) {
-							ms = append(ms, ref.Pick(lr, methods))
-						}
+					perm := append([]string(nil), methods...)
+					ref.Shuffle(lr, perm)
+					ms := perm[:1]
+					if lr.Chance(1, 3) { // a list of distinct methods: the call must be atomic (all installed or none)
+						ms = perm[:lr.Range(2, 3)]
 					}
 					h := env.NewHnd(mon.KRoute, t.pat)
 					x.do(w, cInput{Op: "handle", Pat: t.pat, Method: strings.Join(ms, ","), ID: h.ID}, func() cOutput {
